@@ -3,6 +3,11 @@ use crate::function::InnerFunction;
 use crate::value::Value;
 use core::clone::Clone;
 use std::collections::HashMap;
+#[cfg(feature = "verif_hooks")]
+use crate::verif_hooks::sync::Mutex;
+#[cfg(feature = "verif_hooks")]
+use std::sync::Arc;
+#[cfg(not(feature = "verif_hooks"))]
 use std::sync::{Arc, Mutex};
 
 #[derive(Clone)]
